@@ -39,7 +39,7 @@ Record rules := mkRules {
 Definition legacy_rules := mkRules false false.
 Definition repaired_rules := mkRules true true.
 (* the rules /repo currently implements: L2 of the correspondence check compares against these *)
-Definition current_rules := legacy_rules.
+Definition current_rules := repaired_rules.
 
 Definition key := option Z.        (* VariantCallPhase.block_id: int or None *)
 Definition key_eqb (a b : key) : bool :=
@@ -600,12 +600,14 @@ Fixpoint find_line (id : Z) (bl : list (Z * Z * Z * Z)) : option (Z * Z * Z * Z)
   | [] => None
   | (i, f, t, n) :: r => if i =? id then Some (i, f, t, n) else find_line id r
   end.
-Fixpoint gtf_ok (bl : list (Z * Z * Z * Z)) (last_end : Z) (g : list (Z * Z * Z)) : bool :=
+Fixpoint gtf_ok (bl : list (Z * Z * Z * Z)) (last_end : option Z) (g : list (Z * Z * Z)) : bool :=
   match g with
   | [] => true
   | (s, e, i) :: r =>
       match find_line i bl with
-      | Some (_, f, t, _) => (f <=? s) && (s <=? e) && (e <=? t) && (last_end <? s) && gtf_ok bl e r
+      | Some (_, f, t, _) =>
+          (f <=? s) && (s <=? e) && (e <=? t) && (match last_end with None => true | Some le => le <? s end) &&
+          gtf_ok bl (Some e) r
       | None => false
       end
   end.
@@ -618,7 +620,7 @@ Definition l1_run (only_snvs : bool) (groups : list (Z * list vrec)) (given : li
   forallb (fun row =>
              let recs := lookup_recs groups (fst row) in
              l1_row only_snvs recs (snd row) (lines_of (fst row) (o_blocklist out)) &&
-             gtf_ok (s_blocklist (spec_of only_snvs recs)) 0 (lines_of (fst row) (o_gtf out)))
+             gtf_ok (s_blocklist (spec_of only_snvs recs)) None (lines_of (fst row) (o_gtf out)))
           (o_rows out) &&
   all_row_ok (o_rows out) (o_all out) &&
   match given with
